@@ -40,7 +40,7 @@ struct MSock { bool open = false, v4 = true, bound = false, listening = false, c
 
 struct Sys
 {
-	int variant; // bit0: a2 is v6; bit1: ephemeral counter starts at 65533; bit2: A0 starts out open, bound to A1:5000, listening, with one connection accepted
+	int variant; // bit0: a2 is v6; bit1: ephemeral counter starts at 65533; bit2: A0 starts out open, bound to A1:5000, listening, with one connection accepted; bit3: counter at 65534 and all five sockets already open (v4)
 	std::vector<std::string> fails; std::vector<std::string> log;
 	World w; std::unique_ptr<sim::simulation> sim; std::unique_ptr<asio::io_context> A, B;
 	std::unique_ptr<ip::tcp::socket> T[2]; std::unique_ptr<ip::tcp::acceptor> Acc; std::unique_ptr<ip::udp::socket> U[2];
@@ -58,6 +58,7 @@ struct Sys
 		w.on_build = [](World& ww, sim::simulation&) { auto q = ww.queue(0, ms(1), 0); ww.chan = [q](ip::address, ip::address) { return World::hops_t{ q }; }; };
 		sim.reset(new sim::simulation(w));
 		if (v & 2) sim->m_next_bind_port = 65533;
+		if (v & 8) sim->m_next_bind_port = 65534; // (with every socket already open, see start_state)
 		A.reset(new asio::io_context(*sim, std::vector<ip::address>{ addr(a1.c_str()), addr(a2.c_str()) }));
 		B.reset(new asio::io_context(*sim, std::vector<ip::address>{ addr("10.0.0.9"), addr("fe80::9") }));
 		for (int i = 0; i < 2; ++i) { T[i].reset(new ip::tcp::socket(*A)); U[i].reset(new ip::udp::socket(*A)); }
@@ -359,12 +360,16 @@ struct RegistryEngine : Engine
 		auto find = [&](OpK k, int ep) { for (size_t i = 0; i < ops.size(); ++i) if (ops[i].o == A0 && ops[i].k == k && (k != BIND || ops[i].ep == ep)) return int(i); return -1; };
 		int e5000 = -1; for (int e = 0; e < NEPS; ++e) if (std::string(EPS[e].a) == "A1" && EPS[e].port == 5000) e5000 = e;
 		prelisten = { find(OPEN4, 0), find(BIND, e5000), find(LISTEN, 0), find(ACCEPT_ONE, 0) };
+		preopen.clear(); for (size_t i = 0; i < ops.size(); ++i) if (ops[i].k == OPEN4) preopen.push_back(int(i));
+		variant_masks = a.thorough() ? std::vector<int>{ 0, 1, 2, 3, 4, 5, 6, 7, 8, 9 } : std::vector<int>{ 0, 1, 2, 3, 4, 8 };
+		nvariants = int(variant_masks.size());
 		return uint64_t(nvariants) * ops.size();
 	}
 
 	// replay a history; returns false if some op was not enabled (history invalid)
 	std::vector<int> prelisten; // op indices of the start-state prefix of variants with bit 2
-	void start_state(Sys& s) { if (s.variant & 4) for (int c : prelisten) s.apply(ops[size_t(c)]); }
+	std::vector<int> preopen; std::vector<int> variant_masks;
+	void start_state(Sys& s) { if (s.variant & 4) for (int c : prelisten) s.apply(ops[size_t(c)]); if (s.variant & 8) for (int c : preopen) s.apply(ops[size_t(c)]); }
 	bool build(Sys& s, std::vector<int> const& hist)
 	{
 		start_state(s);
@@ -385,12 +390,13 @@ struct RegistryEngine : Engine
 	void run_unit(uint64_t u, Ctx& ctx) override
 	{
 		ctx.watchdog_s = 10;
-		int variant = int(u / ops.size()); int first = int(u % ops.size());
+		int variant = variant_masks[size_t(u / ops.size())]; int first = int(u % ops.size());
 		ctx.R.note("dump_states");
 		std::unordered_set<uint64_t> seen; // per unit: states reached through this first op
 		std::vector<std::vector<int>> frontier;
 		{ Sys s0(variant); start_state(s0); if (!s0.enabled(ops[size_t(first)])) return; }
-		int const D = (variant & 4) && ctx.args.thorough() ? this->D - 1 : this->D; // the pre-listening start states are explored one op less deep in the thorough tier
+		// the pre-listening start states are explored one op less deep in the thorough tier; the all-open start state (many more enabled ops) 3 ops deep, 4 in the thorough tier
+		int const D = (variant & 8) ? (ctx.args.thorough() ? 4 : 3) : ((variant & 4) && ctx.args.thorough() ? this->D - 1 : this->D);
 		frontier.push_back({});
 		// depth 1 is the unit's first op; BFS below it
 		for (int depth = 1; depth <= D && !frontier.empty(); ++depth) {
@@ -452,7 +458,7 @@ struct RegistryEngine : Engine
 		units(a);
 		int variant = int(c.num("variant")); std::vector<int> hist = c.ints("hist");
 		Sys s(variant);
-		std::fprintf(stdout, "node A = {10.0.0.1, %s}, ephemeral counter starts at %d\n", s.a2.c_str(), (variant & 2) ? 65533 : 2000);
+		std::fprintf(stdout, "node A = {10.0.0.1, %s}, ephemeral counter starts at %d\n", s.a2.c_str(), (variant & 8) ? 65534 : (variant & 2) ? 65533 : 2000);
 		bool ok = build(s, hist);
 		for (auto& l : s.log) std::fprintf(stdout, "  %s\n", l.c_str());
 		if (!ok) { std::fprintf(stdout, "history not enabled\n"); return 2; }
